@@ -230,11 +230,12 @@ class Repo:
     def class_bases(self, c: ClassDef):
         out = []
         for b in c.bases:
-            r = self.resolve(c.module, b.split("[")[0].split(".")[0])
+            parts = b.split("[")[0].split(".")
+            r = self.resolve(c.module, parts[0])
             if isinstance(r, ClassDef):
                 out.append(r)
             elif isinstance(r, Extern):
-                out.append(r)
+                out.append(Extern(".".join([r.dotted] + parts[1:])))
             elif r is None:
                 out.append(Extern(b))
         return out
